@@ -27,6 +27,8 @@ type Var struct {
 	Bare bool `json:"bare,omitempty"`
 	// ND: v<N> written as a bare symbol, i.e. this flavor gives no default
 	ND bool `json:"nd,omitempty"`
+	// Nil: v<N> written (v<N> nil): an explicit default of nil
+	Nil bool `json:"nil,omitempty"`
 }
 
 func (v Var) noDefault() bool { return v.Bare || v.ND }
@@ -345,7 +347,11 @@ func (w *world) newInst(t int, kv []kwarg) (in *inst, plist val) {
 			}
 			if !v.noDefault() && !given[v.name()] {
 				given[v.name()] = true
-				in.vars[v.name()] = v.D
+				if v.Nil {
+					in.vars[v.name()] = nil
+				} else {
+					in.vars[v.name()] = v.D
+				}
 			}
 		}
 	}
@@ -361,25 +367,6 @@ func (w *world) newInst(t int, kv []kwarg) (in *inst, plist val) {
 		plist = pl
 	}
 	return
-}
-
-// shadowed: a flavor earlier in precedence than the one giving v's default
-// names v without a default.
-func (w *world) shadowed(t int, v string) bool {
-	bare := false
-	for _, f := range w.prec(t) {
-		for _, d := range w.c.Flavors[f].Vars {
-			if d.name() != v {
-				continue
-			}
-			if d.noDefault() {
-				bare = true
-			} else {
-				return bare
-			}
-		}
-	}
-	return false
 }
 
 type kwarg struct {
